@@ -280,5 +280,6 @@ func VC11_Module_Quick() {
 }
 func VC11_Phenotype_Quick() { vc11Phenotype() }
 func VC11_Genesis_Thorough() {
-	vc11(tmplCfg{outputs: 2, hidden: 1, genes: 4, traits: 1, params: 1, symRecur: true, symEnable: true, fixedBase: true}, false)
+	vc11(tmplCfg{outputs: 2, hidden: 1, genes: 4, traits: 1, params: 1, symRecur: true, symEnable: true,
+		links: [][2]int{{0, 2}, {1, 3}, {4, 4}}}, false)
 }
